@@ -162,11 +162,16 @@ def id_truthiness(P: Program, R: Report, rule: str, modules: tuple[str, ...] = (
             ann = norm(p.annotation) if p.annotation is not None else ""
             if ("int | None" in ann or "Node | None" in ann) and ("id" in p.arg or "node" in p.arg):
                 ids.add(p.arg)
-        if not ids:
-            continue
-
         def is_id_expr(e):
-            return isinstance(e, ast.Name) and e.id in ids
+            if isinstance(e, ast.Name) and e.id in ids:
+                return True
+            if isinstance(e, ast.Call):
+                src = norm(e)
+                if norm(e.func) == "next" and ("predecessors(" in src or "successors(" in src):
+                    return True
+                if any(src.endswith(")") and f".{s_}(" in src and norm(e.func).endswith(s_) for s_ in ID_SOURCES):
+                    return True
+            return False
 
         for node in ast.walk(fn.node):
             bad = None
@@ -189,9 +194,9 @@ def id_truthiness(P: Program, R: Report, rule: str, modules: tuple[str, ...] = (
                 bad = node.args[0]
             if bad is not None:
                 n += 1
-                R.fail(rule, fn, bad, f"optional id `{bad.id}` tested by truthiness in {fn.short}",
+                R.fail(rule, fn, bad, f"optional id `{norm(bad)[:50]}` tested by truthiness in {fn.short}",
                        "an id of 0 is treated like 'no id': compare with `is None`")
-        R.ok(rule, fn, fn.node, f"{fn.short}: {len(ids)} id-valued local(s), none tested by truthiness", via="lint") if not any(
+        R.ok(rule, fn, fn.node, f"{fn.short}: {len(ids)} id-valued local(s), none tested by truthiness", via="lint") if ids and not any(
             o.rule == rule and o.func == fn.short and o.status == "violated" for o in R.obligations
         ) else None
 
